@@ -91,34 +91,47 @@ def g_var(rng, name):
     return f"{name}={sq(v)}", {"val-" + f}
 
 
-class BodyGen:
-    """Random function bodies as bash source; every construct used is recorded in self.feat."""
+TRIGGERS = ["open-brace-word", "quoted-brace-in-expansion", "close-brace-word", "assign-closes-cmdsub",
+            "heredoc-in-group", "escaped-brace-expansion-in-group"]
 
-    def __init__(self, rng, depth):
+
+class BodyGen:
+    """Random function bodies as bash source.  Every construct used is recorded in self.feat.
+    `trig` = None: only constructs the scanner is expected to nest correctly; otherwise exactly
+    one occurrence of the named trigger shape (a known mis-nesting class) is planted."""
+
+    def __init__(self, rng, depth, trig=None):
         self.rng = rng
         self.feat = set()
         self.maxdepth = depth
-        self.nhere = 0
+        self.trig = trig
+        self.planted = False
+        self.ctx = "top"      # which walker scans the current text: top (process_scope), brace, paren (walk_escaped)
 
-    def word_part(self, d, indq=False):
+    def word_part(self, d, indq=False, insub=False):
         r = self.rng
         k = r.randrange(22 if not indq else 12)
+        if insub:      # inside $( ) / backquotes: plain material only
+            k = r.choice([0, 1, 3, 7, 12, 16, 17, 21]) if not indq else r.choice([0, 3, 10, 11])
         if k <= 2:
             return g_plain(r)
         if k == 3:
             self.feat.add("var")
-            return r.choice(["$x", "$1", "$@", "$#", "$?", "$$", "${x}", "${#x}", "${x[@]}", "${!x}", "$_a"])
+            return r.choice(["$x", "$1", "$@", "$#", "$?", "$$", "${x}", "${#x}", "${x[@]}", "${!x}", "$_a", "${x:1:2}"])
         if k == 4:
             self.feat.add("pe-op")
-            return "${x" + r.choice([":-", ":+", "-", "%", "%%", "#", "##", "/", "//", ":="]) + self.pe_word(d) + "}"
+            return "${x" + r.choice([":-", ":+", "-", "%", "%%", "#", "##", "/", "//", ":="]) + self.pe_word(d, indq) + "}"
         if k == 5:
             self.feat.add("pe-brace")
-            if indq:
-                return "${x" + r.choice(["%", "%%", "#", "//", ":-", "/"]) + r.choice(["\\}", "\\}*", "a\\}b", "\\{", "{"]) + "}"
-            return "${x" + r.choice(["%", "%%", "#", "//", ":-", "/"]) + r.choice(["\\}", "'}'", "\"}\"", "\\}*", "a\\}b", "\\{", "'{'", "{"]) + "}"
+            if self.ctx == "brace" and not indq:
+                return "${x" + r.choice(["%", "%%", "#", "//", ":-", "/"]) + r.choice(["a", "*", "a*b"]) + "}"
+            return "${x" + r.choice(["%", "%%", "#", "//", ":-", "/"]) + r.choice(["\\}", "\\}*", "a\\}b", "\\}/\\{", "\\{", "{"]) + "}"
         if k == 6 and d < self.maxdepth:
             self.feat.add("cmdsub")
-            return "$(" + self.cmdlist(d + 1, inline=True) + ")"
+            old, self.ctx = self.ctx, "top"
+            t = "$(" + self.sublist(d + 1) + ")"
+            self.ctx = old
+            return t
         if k == 7:
             self.feat.add("arith")
             return "$((" + r.choice(["1+2", "x<<2", "(1+2)*3", "x>1?2:3", "a[1]", "x%2", "1 << 3", "x++"]) + "))"
@@ -126,34 +139,39 @@ class BodyGen:
             self.feat.add("esc")
             return r.choice(["\\}", "\\{", "\\$", "\\\\", "\\\"", "\\`"] if indq else
                             ["\\}", "\\{", "\\;", "\\'", "\\\"", "\\ ", "\\#", "\\(", "\\)", "\\$", "\\\\"])
-        if k == 9 and d < self.maxdepth:
+        if k == 9 and d < self.maxdepth and not insub:
             self.feat.add("backquote")
-            return "`" + self.simple(d + 1, nobq=True) + "`"
+            old, self.ctx = self.ctx, "paren"
+            t = "`" + self.simple(d + 1, insub=True) + "`"
+            self.ctx = old
+            return t
         if k == 10:
             self.feat.add("brace-char")
-            return r.choice(["}", "{", "{}", "}{", "a}", "{a", "};"]) if indq else r.choice(["{a,b}", "{}", "a}", "{a", "x{", "{1..3}"])
+            return r.choice(["}", "{", "{}", "}{", "a}", "{a", "};"]) if indq else r.choice(["{a,b}", "{}", "a}", "{1..3}", "x{a,b}y"] if self.ctx != "brace" else ["{a,b}", "{}", "{1..3}", "x{a,b}y"])
         if k == 11:
             self.feat.add("hash-char")
             return r.choice(["#", "a#b", "#}"]) if indq else r.choice(["a#b", "x#"])
         if k == 12:
             self.feat.add("sq")
+            if insub:
+                return "'" + "".join(r.choice("ab }{#;") for _ in range(r.randint(0, 4))) + "'"
             return "'" + "".join(r.choice("ab }{#;$\"()`\\<\n") for _ in range(r.randint(0, 6))) + "'"
         if k == 13 or k == 14:
             self.feat.add("dq")
-            return '"' + "".join(self.word_part(d, indq=True) if r.random() < 0.7 else r.choice([" ", "'", "(", ")", ";", "\n"])
+            return '"' + "".join(self.word_part(d, indq=True, insub=insub) if r.random() < 0.7 else r.choice([" ", "'", "(", ")", ";", "\n"])
                                  for _ in range(r.randint(0, 4))) + '"'
         if k == 15:
             self.feat.add("ansi")
             return "$'" + r.choice(["a\\nb", "\\'", "}\\'{", "\\\\", "x\\ty", "\\'}"]) + "'"
         if k == 16:
             self.feat.add("glob")
-            return r.choice(["*", "?", "[a-z]*", "*.c", "@(a|b)"][: 4])
+            return r.choice(["*", "?", "[a-z]*", "*.c"])
         if k == 17:
             self.feat.add("tilde-eq")
             return r.choice(["~", "a=b", "--opt=val", "-f", "--x={}"])
         return g_plain(r)
 
-    def pe_word(self, d):
+    def pe_word(self, d, indq=False):
         r = self.rng
         k = r.randrange(6)
         if k == 0:
@@ -164,23 +182,40 @@ class BodyGen:
             return "$y"
         if k == 3:
             return "${y:-" + g_plain(r) + "}"
+        if indq:
+            return g_plain(r)
         if k == 4:
             return "'" + g_plain(r) + " '"
         return '"' + g_plain(r) + ' $z"'
 
-    def word(self, d):
-        return "".join(self.word_part(d) for _ in range(self.rng.choice([1, 1, 1, 2, 2, 3])))
+    def word(self, d, insub=False):
+        return "".join(self.word_part(d, insub=insub) for _ in range(self.rng.choice([1, 1, 1, 2, 2, 3])))
 
-    def simple(self, d, nobq=False):
+    def trigger_word(self):
+        """The planted mis-nesting shape, when it is a word."""
+        r = self.rng
+        t = self.trig
+        if t == "open-brace-word":
+            return r.choice(["x{", "{a", "}{", "${x%\\{}{", "a{b"])
+        if t == "quoted-brace-in-expansion":
+            return r.choice(["${x%'}'}", "${x%\"}\"}", "\"${x%\"}\"}\"", "${x:-\"a}b\"}", "${x//'}'/y}"])
+        if t == "assign-closes-cmdsub":
+            return r.choice(["$(v=1)", "$(echo a; v=b)", "\"$(v=(1 2))\""])
+        return None
+
+    def simple(self, d, insub=False):
         r = self.rng
         cmd = r.choice(["echo", "echo", ":", "emake", "local", "einfo", "cd", "[", "printf", "true"])
+        if insub and cmd == "local":
+            cmd = "echo"
         n = r.randint(0, 4)
-        ws = []
-        for _ in range(n):
-            w = self.word(d)
-            if nobq and "`" in w:
-                w = g_plain(r)
-            ws.append(w)
+        ws = [self.word(d, insub=insub) for _ in range(n)]
+        if not self.planted and self.trig and d <= 1 and not insub and r.random() < 0.5:
+            tw = self.trigger_word()
+            if tw is not None:
+                ws.insert(r.randint(0, len(ws)), tw)
+                self.planted = True
+                self.feat.add("TRIG-" + self.trig)
         if cmd == "[":
             return "[ " + (ws[0] if ws else "a") + " = " + (ws[1] if len(ws) > 1 else "b") + " ]"
         if cmd == "local":
@@ -188,7 +223,7 @@ class BodyGen:
             return "local v" + ("=" + ws[0] if ws else "")
         s = cmd + "".join(" " + w for w in ws)
         k = r.randrange(14)
-        if k == 0:
+        if k == 0 and not insub:
             self.feat.add("assign-prefix")
             s = "V=" + self.word(d) + " " + s
         elif k == 1:
@@ -196,13 +231,42 @@ class BodyGen:
             s += r.choice([" > /dev/null", " 2>&1", " >> \"$T\"/log", " < /dev/null", " &> /dev/null", " >&2"])
         elif k == 2:
             self.feat.add("herestring")
-            s += " <<< " + self.word(d)
+            s += " <<< " + self.word(d, insub=insub)
         return s
 
-    def command(self, d):
+    def sublist(self, d):
+        """Command list inside $( ): simple commands only, no assignments."""
+        r = self.rng
+        return "; ".join(self.simple(d, insub=True) for _ in range(r.choice([1, 1, 2])))
+
+    def heredoc(self, safe):
+        r = self.rng
+        quoted = r.random() < 0.5
+        dash = r.random() < 0.3
+        delim = r.choice(["EOF", "END", "_E", "EOT"])
+        self.feat.add("heredoc-q" if quoted else "heredoc")
+        pool = ["text", "a $x b", "EOFX", "EOF ", "a=b", "x EOF", "a b c", " _EOF"]
+        if not safe:
+            pool += ["}", "{", " } ", "f() {", ") ;", "'", "\"", "# c", "it's", "<<"]
+            if quoted:
+                pool += ["$(z", "`q", "\\", "${y", "$"]
+        lines = [r.choice(pool) for _ in range(r.randint(0, 3))]
+        body = "".join(("\t" if dash else "") + l + "\n" for l in lines)
+        return ("cat <<" + ("-" if dash else "") + ("'" + delim + "'" if quoted else delim) + "\n" + body
+                + ("\t" if dash else "") + delim + "\n")
+
+    def command(self, d, ingroup=False):
         r = self.rng
         k = r.randrange(26)
         deep = d < self.maxdepth
+        if not self.planted and self.trig in ("close-brace-word", "heredoc-in-group", "escaped-brace-expansion-in-group") and d <= 1 and r.random() < 0.4:
+            self.planted = True
+            self.feat.add("TRIG-" + self.trig)
+            if self.trig == "escaped-brace-expansion-in-group":
+                return r.choice(["{ echo ${x%\\}}; }", "{ :; echo a ${x//\\}/b} c; }", "{ v=${x:-\\}}; }"])
+            if self.trig == "close-brace-word":
+                return r.choice(["{ echo }; }", "case $x in }) echo 1;; esac", "{ echo a; echo } b; }", "( { echo }; } )"])
+            return r.choice(["{ cat <<EOF\n}\nEOF\n}", "( cat <<EOF\n)\nEOF\n)", "{ cat <<'E'\n a }\nE\n}"])
         if k <= 8 or not deep:
             if k == 3:
                 self.feat.add("assign")
@@ -213,76 +277,70 @@ class BodyGen:
             return self.simple(d)
         if k == 9:
             self.feat.add("group")
-            return "{ " + self.cmdlist(d + 1, inline=True) + "; }"
+            old, self.ctx = self.ctx, "brace"
+            t = "{ " + self.cmdlist(d + 1, ingroup=True) + "; }"
+            self.ctx = old
+            return t
         if k == 10:
             self.feat.add("subshell")
-            return "( " + self.cmdlist(d + 1, inline=True) + " )"
+            old, self.ctx = self.ctx, "paren"
+            t = "( " + self.cmdlist(d + 1, ingroup=True) + " )"
+            self.ctx = old
+            return t
         if k == 11:
             self.feat.add("if")
-            s = "if " + self.simple(d) + "; then " + self.cmdlist(d + 1, inline=True)
+            s = "if " + self.simple(d) + "; then " + self.cmdlist(d + 1, ingroup)
             if r.random() < 0.4:
-                s += "; elif " + self.simple(d) + "; then " + self.cmdlist(d + 1, inline=True)
+                s += "; elif " + self.simple(d) + "; then " + self.cmdlist(d + 1, ingroup)
             if r.random() < 0.5:
-                s += "; else " + self.cmdlist(d + 1, inline=True)
+                s += "; else " + self.cmdlist(d + 1, ingroup)
             return s + "; fi"
         if k == 12:
             self.feat.add("for")
-            return "for i in " + " ".join(self.word(d) for _ in range(r.randint(0, 3))) + "; do " + self.cmdlist(d + 1, inline=True) + "; done"
+            return "for i in " + " ".join(self.word(d) for _ in range(r.randint(0, 3))) + "; do " + self.cmdlist(d + 1, ingroup) + "; done"
         if k == 13:
             self.feat.add("while")
-            return r.choice(["while", "until"]) + " " + self.simple(d) + "; do " + self.cmdlist(d + 1, inline=True) + "; done"
+            return r.choice(["while", "until"]) + " " + self.simple(d) + "; do " + self.cmdlist(d + 1, ingroup) + "; done"
         if k == 14 or k == 15:
             self.feat.add("case")
             arms = []
             for _ in range(r.randint(1, 3)):
-                pat = r.choice(["a", "a|b", "*", "\"}\"", "'}'", "\\}", "x*)y".replace(")", ""), "\"$x\"", "{", "[a-z]", "'{'", "-*"])
-                if "}" in pat:
+                pat = r.choice(["a", "a|b", "*", "\"}\"", "'}'", "\\}", "x*", "\"$x\"", "[a-z]", "'{'", "-*", "\"{\""])
+                if "}" in pat or "{" in pat:
                     self.feat.add("case-brace-pattern")
-                arms.append(pat + ") " + self.cmdlist(d + 1, inline=True) + " ;;")
+                arms.append(pat + ") " + self.cmdlist(d + 1, ingroup) + " ;;")
             return "case " + self.word(d) + " in " + " ".join(arms) + " esac"
         if k == 16:
             self.feat.add("pipeline")
             return self.simple(d) + " | " + self.simple(d)
         if k == 17:
             self.feat.add("andor")
-            return self.simple(d) + r.choice([" && ", " || "]) + self.command(d + 1)
+            return self.simple(d) + r.choice([" && ", " || "]) + self.simple(d)
         if k == 18:
             self.feat.add("cond")
-            return "[[ " + r.choice(["$a == \"}\"", "-n $x", "$x = a*", "$x =~ ^a.*$", "-z ${x%\\}}", "$a != '{' && $b == x", "${x} == \"{\""]) + " ]]"
+            return "[[ " + r.choice(["$a == \"}\"", "-n $x", "$x = a*", "$x =~ ^a.*$", "$a != '{' && $b == x", "${x} == \"{\""]
+                                    + (["-z ${x%\\}}"] if self.ctx != "brace" else [])) + " ]]"
         if k == 19 or k == 20:
-            self.nhere += 1
-            quoted = r.random() < 0.5
-            dash = r.random() < 0.3
-            delim = r.choice(["EOF", "END", "_E", "EOF2"])
-            self.feat.add("heredoc-q" if quoted else "heredoc")
-            lines = []
-            for _ in range(r.randint(0, 3)):
-                lines.append(r.choice(["text", "}", "{", " } ", "a $x b", "${y}", "$(z)", "# c", "'", "\"", "EOFX", " EOF", "EOF ", "it's", "f() {", "a=b",
-                                       "`q`", "\\", ") ;", "<<", "$"]))
-            if not quoted:
-                lines = [l for l in lines if l not in ("$(z)", "`q`", "\\", "$", "${y}", "'", "\"")] or ["plain"]
-            body = "".join(("\t" if dash else "") + l + "\n" for l in lines)
-            return ("cat <<" + ("-" if dash else "") + ("'" + delim + "'" if quoted else delim) + "\n" + body
-                    + ("\t" if dash else "") + delim + "\n")
+            return self.heredoc(safe=ingroup)
         if k == 21:
             self.feat.add("nested-func")
-            return r.choice(["inner() { ", "function inner { "]) + self.cmdlist(d + 1, inline=True) + "; }"
+            old, self.ctx = self.ctx, ("top" if self.ctx == "top" else self.ctx)
+            t = r.choice(["inner() { ", "function inner { "]) + self.cmdlist(d + 1, ingroup=(self.ctx != "top")) + "; }"
+            self.ctx = old
+            return t
         if k == 22:
             self.feat.add("arith-cmd")
             return "(( " + r.choice(["x++", "x = 1 << 2", "a > b", "x %= 2", "y = (1+2)*3"]) + " ))"
         if k == 23:
             self.feat.add("comment")
             return self.simple(d) + " # " + r.choice(["c", "}", "{", "it's", "\"", "$(", "`"]) + "\n"
-        if k == 24:
-            self.feat.add("brace-word")
-            return "echo " + r.choice(["}", "{", "{ }", "} x", "a }", "{}"])
         return self.simple(d)
 
-    def cmdlist(self, d, inline=False):
+    def cmdlist(self, d, ingroup=False):
         n = self.rng.choice([1, 1, 2, 2, 3])
         out = ""
         for i in range(n):
-            c = self.command(d)
+            c = self.command(d, ingroup)
             if out:
                 out += "" if out.endswith("\n") else "; "
             out += c
@@ -291,11 +349,24 @@ class BodyGen:
         return out
 
     def body(self):
-        return self.cmdlist(0)
+        b = self.cmdlist(0)
+        if self.trig and not self.planted:
+            tw = self.trigger_word()
+            self.planted = True
+            self.feat.add("TRIG-" + self.trig)
+            if tw is not None:
+                b += ("" if b.endswith("\n") else "; ") + "echo " + tw
+            elif self.trig == "close-brace-word":
+                b += ("" if b.endswith("\n") else "; ") + "{ echo }; }"
+            elif self.trig == "escaped-brace-expansion-in-group":
+                b += ("" if b.endswith("\n") else "; ") + "{ echo ${x%\\}}; }"
+            else:
+                b += ("" if b.endswith("\n") else "; ") + "{ cat <<EOF\n}\nEOF\n}"
+        return b
 
 
-def g_func(rng, name, depth):
-    bg = BodyGen(rng, depth)
+def g_func(rng, name, depth, trig=None):
+    bg = BodyGen(rng, depth, trig)
     body = bg.body()
     sep = "\n" if body.endswith("\n") else ";"
     return f"{name}() {{ {body}{sep} }}", bg.feat
@@ -339,7 +410,7 @@ class Case:
     __slots__ = ("chunks", "feat", "vars", "funcs", "vwl", "fwl", "impl", "data", "tag")
 
 
-def build_cases(chk, n, depth):
+def build_cases(chk, n, depth, trig_share=0.12):
     """Generate n cases, let bash define and dump them; returns list of Case (chunks filled in)."""
     rng = chk.rng
     d = tempfile.mkdtemp(prefix="c34_", dir=str(chk.scratch))
@@ -352,7 +423,7 @@ def build_cases(chk, n, depth):
         vnames = rng.sample(VAR_NAMES, nv)
         fnames = rng.sample(FUNC_NAMES, nf)
         vs = [(nm,) + g_var(rng, nm) for nm in vnames]
-        fs = [(nm,) + g_func(rng, nm, depth) for nm in fnames]
+        fs = [(nm,) + g_func(rng, nm, depth, rng.choice(TRIGGERS) if rng.random() < trig_share else None) for nm in fnames]
         with open(f"{d}/v{i}.sh", "w") as f:
             f.write("".join(src + "\n" for _, src, _ in vs))
         with open(f"{d}/f{i}.sh", "w") as f:
